@@ -139,7 +139,9 @@ impl BuiltInFunctionList {
 
                 if let DataType::Num(push_at_i_f) = push_at {
                     let push_at_u = push_at_i_f as usize;
-                    actual_list.insert(push_at_u, push_value);
+                    if push_at_i_f >= 0.0 && push_at_u <= actual_list.len() {
+                        actual_list.insert(push_at_u, push_value);
+                    } else { return Err(format!("Index out of range")); }
                 } else { return Err(format!("Index must evaluate to number type")); }
 
             } else { return Err(format!("Datatype must be array to push value")); }
@@ -167,8 +169,10 @@ impl BuiltInFunctionList {
 
                 if let DataType::Num(pop_at_i_f) = pop_at {
                     let pop_at_i = pop_at_i_f as usize;
-                    actual_list.remove(pop_at_i);
-                }
+                    if pop_at_i_f >= 0.0 && pop_at_i < actual_list.len() {
+                        actual_list.remove(pop_at_i);
+                    } else { return Err(format!("Index out of range")); }
+                } else { return Err(format!("Index must evaluate to number type")); }
 
             } else { return Err(format!("Datatype must be array to push value")); }
 
